@@ -30,7 +30,7 @@ def main():
     aborted = False
     try:
         drivers.DRIVERS[prop](ctx)
-    except Exception as e:  # noqa
+    except (Exception, __import__('observers').BudgetExceeded) as e:  # noqa  (BudgetExceeded: the wall-clock guard fired)
         from abstraction import a_exc
         import traceback
         info = a_exc(e)
